@@ -110,7 +110,8 @@ EvalE(P, e, st) ==
             ELSE LET k == NormIdx(i.v.z, Len(a.v.e)) IN
                  IF k < 0 THEN [v |-> Unit, st |-> Panic(i.st)] ELSE [v |-> a.v.e[k + 1], st |-> i.st]
       [] e.k = "len"  -> LET a == EvalE(P, e.e, st) IN
-            IF Stopped(a.st) THEN a ELSE [v |-> IntV([s |-> TRUE, b |-> 32], ZFromNat(NFromInt(Len(a.v.e)))), st |-> a.st]
+            IF Stopped(a.st) THEN a
+            ELSE [v |-> IntV([s |-> TRUE, b |-> 32], ZFromNat(NFromInt(IF a.v.t = "s" THEN Len(a.v.v) ELSE Len(a.v.e)))), st |-> a.st]
       [] e.k = "struct" -> LET r == StructFields(P, e.fs, 1, st, <<>>) IN
             [v |-> [t |-> "st", f |-> r.f], st |-> r.st]
       [] e.k = "array" -> LET r == ArrElems(P, e.es, 1, st, <<>>) IN [v |-> [t |-> "ar", e |-> r.vs], st |-> r.st]
